@@ -91,8 +91,8 @@ pub fn spec(prop: &str) -> Option<PropSpec> {
             "per generated history, for (up to 6) commit and meld operations in it: EVERY storage-write boundary is a crash point (snapshot of the durable map, reopened), and EVERY write position fails once, 2x and 3x in a row, plus a full disk, followed by retries; histories are sampled, boundaries and positions are enumerated completely; non-trivial = a history in which at least one target was enumerated; distinct = distinct op sequence hash",
             &["enum.commit_targets", "enum.meld_targets", "enum.crash_points", "enum.write_failures", "enum.retries_completed", "fault.write_err", "fault.disk_full", "fault.crash_snapshot"]),
         "C10" => s("C10", "fault_enumeration", 20000, 300000, &["enum.damage_cases"], &["probe.damage_open_ok"],
-            "per generated history, on the richest store: for EVERY item bit flips at first/last/8 seeded positions (thorough: every byte), truncation to 0/1/mid/len-1 (thorough: every length), deletion, all pairs of deletions (thorough: triples), and a fixed list of junk-file classes; at rest then open, and in transit then refresh; non-trivial = a history whose damage cases were enumerated and at least one damaged store opened; distinct = distinct op sequence hash",
-            &["enum.damage_cases", "enum.damage_cases_in_transit", "probe.damage_open_ok", "probe.damage_open_err", "probe.damage_value_checked", "fault.damage_bitflip", "fault.damage_truncate", "fault.damage_delete", "fault.damage_junk"]),
+            "per generated history, on the richest store: for EVERY item bit flips at first/last/8 seeded positions (thorough: every byte), truncation to 0/1/mid/len-1 (thorough: every length), deletion, all pairs of deletions (thorough: triples), and a fixed list of junk-file classes; at rest then open, in transit then refresh, and (packs only) under an already open replica followed by get_value of every revision; non-trivial = a history whose damage cases were enumerated and at least one damaged store opened; distinct = distinct op sequence hash",
+            &["enum.damage_cases", "enum.damage_cases_in_transit", "enum.damage_cases_live", "probe.damage_live_read_refused", "probe.damage_open_ok", "probe.damage_open_err", "probe.damage_value_checked", "fault.damage_bitflip", "fault.damage_truncate", "fault.damage_delete", "fault.damage_junk"]),
         "C17" => s("C17", "exploration", 6000, 90000, &["probe.backend_calls"], &["contract.write"],
             "run k uses backend k mod 12 of {memory, directory, SQLite file, SQLite in-memory} x {plain, Deflate, Brotli}: (1) a replica history over SimAdapter with the real backend behind it, every read/list answered by the backend and compared with the first-write-wins model, persistent backends re-constructed on restart; (2) a seeded write/read/ranged-read/list/reopen sequence with arbitrary bytes against the same model; non-trivial = both parts ran; distinct = distinct op sequence hash",
             &["contract.write", "contract.second_write", "contract.read_range", "contract.list", "contract.read_missing", "fault.backend_reopen", "probe.backend_calls", "probe.backend.dir", "probe.backend.sqlite", "probe.backend.sqlite+brotli", "probe.backend.memory+flate"]),
